@@ -44,6 +44,9 @@ func (st *batchStats) add(b *Batch, obs *BatchObs) {
 			st.Inconsistent = append(st.Inconsistent, map[string]any{"batch": b.ID, "what": "ServerView.Run ran a different number of handlers than the batch path", "batch_calls": len(obs.Calls), "run_calls": obs.DirectCalls})
 		}
 	}
+	if obs.ExecDirect != "" {
+		st.Inconsistent = append(st.Inconsistent, map[string]any{"batch": b.ID, "what": obs.ExecDirect})
+	}
 	seen := map[string]bool{}
 	sig := fmt.Sprintf("n=%d err=%v calls=%d:", len(b.Invs), obs.ExecErr != "", len(obs.Calls))
 	for _, n := range b.Invs {
